@@ -16,12 +16,22 @@ structure DSt where
   results : Nat → List String := fun _ => []
   blocked : Nat → Bool := fun _ => false
   fin : Nat → Bool := fun _ => false
+  /-- record still carries its expiry in the past (PatchExpired candidates) -/
+  expiredRec : List Bool := []
+  /-- PatchExpired batches: howMany of a batch that is blocked before its lock; selected count / capReached once selected -/
+  xwant : Nat → Option Nat := fun _ => none
+  xsel : Nat → Nat := fun _ => 0
+  xreached : Nat → Bool := fun _ => false
+  isX : Nat → Bool := fun _ => false
 
 def upd {α : Type} (f : Nat → α) (b : Nat) (v : α) : Nat → α := fun x => if x = b then v else f x
 
 def tail (d : DSt) : String :=
   let mu := if d.s.capMu.isSome then "held" else "free"
-  s!"m={matching d.s} mu={mu}" ++ (if matching d.s > d.s.max then "\t#F:C12-count-before-capmu" else "")
+  let fid := if !d.cfg.countAfterLock then "C12-count-before-capmu"
+    else if !d.cfg.createPreFalse then "C12-create-counts-as-prematched"
+    else "C12-patchexpired-releases-capmu-early"
+  s!"m={matching d.s} mu={mu}" ++ (if matching d.s > d.s.max then "\t#F:" ++ fid else "")
 
 def act (d : DSt) (a : Act) : Option DSt :=
   (step d.cfg d.s a).map fun s' => { d with s := s' }
@@ -33,22 +43,67 @@ def stopName (d : DSt) (b : Nat) : String :=
   | .run => "patch"
   | _ => "?"
 
-/-- perform the last patch's successor: the deferred unlock, and let a blocked batch in -/
-def finish (d : DSt) (b : Nat) : DSt × String :=
-  let d := (act d (.unlock b)).getD d
-  let d := { d with fin := upd d.fin b true }
-  let rs := ",".intercalate (d.results b)
-  let reached := (d.results b).contains "X"
-  let msg := s!"done r=[{rs}] reached={reached}"
-  let o := 3 - b
-  if d.blocked o then
+/-- candidates of a PatchExpired: present, expired, not already claimed, oldest (lowest index) first -/
+def candidates (d : DSt) : List Nat :=
+  (List.range d.s.recs.length).filter fun k => d.s.present.getD k false && d.expiredRec.getD k false
+
+/-- PatchExpired's lock + count + select (mirrors SelectExpiredForPatchWithCap) -/
+def xSelect (d : DSt) (b want : Nat) : Option (DSt × String) :=
+  let cands := candidates d
+  match act d (.submitExpired b cands) with
+  | none => none
+  | some d1 =>
+    match act d1 (.first b) with
+    | none => none   -- capMu is held by the other batch
+    | some d2 =>
+      let budget := d2.s.max - matching d2.s
+      match act d2 (.second b) with
+      | none => none
+      | some d3 =>
+        let eff0 := if want == 0 then cands.length else want
+        let eff := if budget < eff0 then budget else eff0
+        -- the LTS keeps at most `budget` candidates; HowMany narrows further
+        let keep := cands.take (min eff cands.length)
+        let x := d3.s.batch b
+        let d3 := { d3 with s := { d3.s with batch := fun y => if y = b then { x with todo := keep.map (·, true) } else d3.s.batch y } }
+        -- (HowMany 0 means MaxInt in the code, so any finite budget `tightens` it: capReached)
+        let reached := budget == 0 || want == 0 || budget < want || cands.length > keep.length
+        -- claimed records leave the expiry index at once
+        let d3 := { d3 with expiredRec := (List.range d3.expiredRec.length).map (fun k => d3.expiredRec.getD k false && !keep.contains k),
+                            xsel := upd d3.xsel b keep.length, xreached := upd d3.xreached b reached, isX := upd d3.isX b true }
+        let d3 := if d3.cfg.expiredHoldsCapMu then d3 else (act d3 (.unlockEarly b)).getD d3
+        if budget == 0 || keep.isEmpty then
+          -- nothing selected: the call returns at once
+          let d4 := (act d3 (.unlock b)).getD d3
+          some ({ d4 with fin := upd d4.fin b true }, s!"done patched=0 reached={reached}")
+        else some (d3, s!"selected={keep.length}")
+
+/-- let a blocked batch in after the holder has left -/
+def unblock (d : DSt) (o : Nat) : DSt × String :=
+  if !d.blocked o then (d, "") else
+  match d.xwant o with
+  | some want =>
+    match xSelect { d with s := { d.s with batch := fun y => if y = o then Batch.empty else d.s.batch y } } o want with
+    | some (d', msg) => ({ d' with blocked := upd d'.blocked o false, xwant := upd d'.xwant o none }, s!" unblocked={o}@{msg}")
+    | none => (d, " unblocked-timeout")
+  | none =>
     let a := if (d.s.batch o).pc == .ready then Act.first o else Act.second o
     match act d a with
     | some d' =>
       let d' := { d' with blocked := upd d'.blocked o false }
-      (d', msg ++ s!" unblocked={o}@{stopName d' o}")
-    | none => (d, msg ++ " unblocked-timeout")
-  else (d, msg)
+      (d', s!" unblocked={o}@{stopName d' o}")
+    | none => (d, " unblocked-timeout")
+
+/-- perform the last patch's successor: the deferred unlock, and let a blocked batch in -/
+def finish (d : DSt) (b : Nat) : DSt × String :=
+  let d := (act d (.unlock b)).getD d
+  let d := { d with fin := upd d.fin b true }
+  let msg := if d.isX b then s!"done patched={d.xsel b} reached={d.xreached b}"
+    else
+      let rs := ",".intercalate (d.results b)
+      s!"done r=[{rs}] reached={(d.results b).contains "X"}"
+  let (d, u) := unblock d (3 - b)
+  (d, msg ++ u)
 
 def stepBatch (d : DSt) (b : Nat) : DSt × String :=
   let x := d.s.batch b
@@ -62,10 +117,19 @@ def stepBatch (d : DSt) (b : Nat) : DSt × String :=
     | some d' => (d', "patch")
     | none => ({ d with blocked := upd d.blocked b true }, "blocked")
   | .run =>
+    if d.isX b then
+      -- the per-record patches of a PatchExpired run to the end of the call
+      let d := x.todo.foldl (fun d _ => (act d (.patch b)).getD d) d
+      finish d b
+    else
     let before := x.rejected
+    let nfBefore := x.notFound
+    let wasThere := match x.todo with | (k, _) :: _ => d.s.present.getD k false | [] => true
     match act d (.patch b) with
     | some d' =>
-      let r := if (d'.s.batch b).rejected > before then "X" else "P"
+      let r := if (d'.s.batch b).rejected > before then "X"
+        else if (d'.s.batch b).notFound > nfBefore then "N"
+        else if wasThere then "P" else "C"
       let d' := { d' with results := upd d'.results b (d'.results b ++ [r]) }
       if (d'.s.batch b).todo.isEmpty then finish d' b else (d', "patch")
     | none => (d, "skip")
@@ -83,17 +147,47 @@ def stepLine (d : DSt) (line : String) : DSt × String :=
     match m.toNat? with
     | none => (d, "bad-op")
     | some mx =>
-      let d := { d with s := init (recs.map (· == "1")) mx, started := true }
+      let d := { d with s := initP (recs.map (· == "1")) (recs.map (· != "-")) mx, started := true,
+                        expiredRec := recs.map (· != "-") }
       (d, s!"init {tail d}")
   | "submit" :: bs :: ps =>
     match bs.toNat? with
     | none => (d, "skip")
     | some b =>
-      if !d.started || ps.isEmpty || b < 1 || b > 2 || (d.s.batch b).pc != .idle then (d, "skip") else
+      if !d.started || ps.isEmpty || b < 1 || b > 2 || (d.s.batch b).pc != .idle || d.isX b || (d.xwant b).isSome then (d, "skip") else
       let patches := ps.filterMap parsePatch
-      match act d (.submit b patches) with
+      let a := if ps.contains "c=a" then Act.submitCreate b patches true
+               else if ps.contains "c=i" then Act.submitCreate b patches false
+               else Act.submit b patches
+      match act d a with
       | some d' => ({ d' with npatch := upd d'.npatch b patches.length }, s!"submit {b} pre {tail d'}")
       | none => (d, "skip")
+  | ["xsubmit", bs, ns] =>
+    match bs.toNat?, ns.toNat? with
+    | some b, some want =>
+      if !d.started || b < 1 || b > 2 || (d.s.batch b).pc != .idle || d.isX b || (d.xwant b).isSome then (d, "skip") else
+      match xSelect d b want with
+      | some (d', msg) => (d', s!"xsubmit {b} {msg} {tail d'}")
+      | none =>
+        let d := { d with blocked := upd d.blocked b true, xwant := upd d.xwant b (some want) }
+        (d, s!"xsubmit {b} blocked {tail d}")
+    | _, _ => (d, "skip")
+  | ["shift", ns] =>
+    match ns.toNat? with
+    | none => (d, "skip")
+    | some n =>
+      if !d.started then (d, "skip") else
+      if d.s.capMu.isSome then (d, "busy") else
+      -- mirrors beacon.ShiftMatching: budget = cap − matching bounds the number shifted
+      let idle := (List.range d.s.recs.length).filter fun k => d.s.present.getD k false && !(d.s.recs.getD k false)
+      let budget := d.s.max - matching d.s
+      if n == 0 then (d, s!"shift {n} shifted=0 reached=false {tail d}") else
+      if budget == 0 then (d, s!"shift {n} shifted=0 reached=true {tail d}") else
+      let eff := if budget < n then budget else n
+      let take := idle.take eff
+      let reached := budget < n || idle.length > take.length
+      let d := take.foldl (fun d k => (act d (.delete k)).getD d) d
+      (d, s!"shift {n} shifted={take.length} reached={reached} {tail d}")
   | ["step", bs] =>
     match bs.toNat? with
     | none => (d, "skip")
@@ -105,7 +199,8 @@ def stepLine (d : DSt) (line : String) : DSt × String :=
 
 def run (args : List String) : IO UInt32 := do
   let kv := parseArgs args
-  lineLoop stepLine { cfg := { countAfterLock := arg kv "countAfterLock" == "yes" } }
+  lineLoop stepLine { cfg := { countAfterLock := arg kv "countAfterLock" == "yes", createPreFalse := arg kv "createPreFalse" != "no",
+                                expiredHoldsCapMu := arg kv "expiredHoldsCapMu" != "no" } }
   return 0
 
 end Driver.C12
